@@ -1,7 +1,794 @@
-//! C28 — not built yet.
-use lv_common::Ctx;
+//! C28 — Header-ex client accepts only well-formed, validated responses.
+//!
+//! Drives the real (private) `decode_and_verify_responses` through the `verif::header_ex` hook with
+//! valid requests (`is_valid()` is the caller's precondition, checked through the hook for every
+//! generated request) and response lists assembled from a generated universe: an honest chain, a fork
+//! signed by the same validators, a fork signed by foreign validators, another chain at the same
+//! heights, invalid-by-construction variants of all of those, status-code games, garbage.
+//!
+//! Oracle (soundness, exactly the property sentence): `Ok(hs)` implies
+//!   * every `h` in `hs` passes `validate()`, is (typed-)equal to one of the offered bodies that carried
+//!     status OK, and is not one of the offered invalid-by-construction bodies;
+//!   * height request: 1 <= |hs| <= amount and heights are exactly start, start+1, … (no wrap-around);
+//!   * hash request: |hs| = 1 and its hash is the requested one;  head request: |hs| = 1.
+//! Anything else must be `Err`; a panic is a violation (the property says "is an error").
+use std::cell::OnceCell;
 
-pub fn run(_ctx: &mut Ctx) {
-    eprintln!("C28: check not built yet");
-    std::process::exit(2);
+use celestia_proto::header::pb::ExtendedHeader as RawExtendedHeader;
+use celestia_proto::p2p::pb::{HeaderRequest, HeaderResponse};
+use celestia_types::ExtendedHeader;
+use lumina_node::verif::header_ex as hx;
+use lv_common::prelude::*;
+use lv_common::{Prng, no_panic};
+use lv_gen::chain::{Chain, ChainSpec, TimeBase, build_chain, build_fork, chain_strategy, simple_chain_spec};
+use lv_gen::headerex::{
+    Damage, ReqData, STATUS_INVALID, STATUS_NOT_FOUND, STATUS_OK, damage_strategy, damaged_body, encode_header, make_request,
+    panic_signature, raw_decode, raw_of, ref_request_is_valid,
+};
+
+const I64MAX: u64 = i64::MAX as u64;
+
+#[derive(Clone, Debug, Serialize, Deserialize)]
+pub enum ChainStart {
+    One,
+    Small(u16),
+    Mid(u64),
+    /// the last header of the chain has height i64::MAX (the largest tendermint height)
+    TopI64,
+}
+
+#[derive(Clone, Debug, Serialize, Deserialize)]
+pub enum StartSel {
+    InChain(u16),
+    Below(u8),
+    Above(u8),
+    One,
+    /// u64::MAX - k
+    NearU64Max(u8),
+    /// i64::MAX + k
+    NearI64Max(i8),
+}
+
+#[derive(Clone, Debug, Serialize, Deserialize)]
+pub enum HashSel {
+    Chain(u16),
+    ForkSame(u16),
+    ForkForeign(u16),
+    Random(u64),
+}
+
+#[derive(Clone, Debug, Serialize, Deserialize)]
+pub enum ReqSpec {
+    Height { start: StartSel, amount: u8 },
+    Hash(HashSel),
+    Head,
+}
+
+#[derive(Clone, Debug, Serialize, Deserialize)]
+pub enum Src {
+    /// the honest header for position `k` of the answer (height start+k / the requested hash / the head)
+    AtOffset(u8),
+    Chain(u16),
+    /// header of the same-validators fork at answer position k (right height, other hash)
+    ForkSame(u8),
+    ForkForeign(u8),
+    /// header of another chain (other chain id, other keys) at answer position k
+    OtherChain(u8),
+    /// honest body with one byte flipped (may or may not stay valid)
+    ByteFlip { k: u8, pos: u16, bit: u8 },
+    Garbage { seed: u64, len: u16 },
+    EmptyBody,
+}
+
+#[derive(Clone, Debug, Serialize, Deserialize)]
+pub enum Status {
+    Ok,
+    NotFound,
+    Invalid,
+    Unknown(i32),
+}
+
+#[derive(Clone, Debug, Serialize, Deserialize)]
+pub struct EntrySpec {
+    pub src: Src,
+    pub damage: Option<Damage>,
+    pub status: Status,
+}
+
+#[derive(Clone, Debug, Serialize, Deserialize)]
+pub enum RunLen {
+    /// what an honest server with the whole chain would send: min(amount, available)
+    Full,
+    FullMinus(u8),
+    /// exactly `amount` entries even when the chain is shorter (positions wrap to other headers)
+    Amount,
+    /// oversize
+    AmountPlus(u8),
+    Zero,
+}
+
+#[derive(Clone, Debug, Serialize, Deserialize)]
+pub enum Base {
+    Run(RunLen),
+    Entries(Vec<EntrySpec>),
+}
+
+#[derive(Clone, Debug, Serialize, Deserialize)]
+pub enum Edit {
+    Replace { pos: u16, e: EntrySpec },
+    Insert { pos: u16, e: EntrySpec },
+    Remove { pos: u16 },
+    Swap { a: u16, b: u16 },
+    Dup { pos: u16 },
+    SetStatus { pos: u16, status: Status },
+    Damage { pos: u16, d: Damage },
+    Reverse,
+    Shuffle(u64),
+    Truncate { len: u16 },
+}
+
+#[derive(Clone, Debug, Serialize, Deserialize)]
+pub struct Trial {
+    pub req: ReqSpec,
+    pub base: Base,
+    pub edits: Vec<Edit>,
+}
+
+#[derive(Clone, Debug, Serialize, Deserialize)]
+pub struct Case {
+    pub chain: ChainSpec,
+    pub start: ChainStart,
+    pub trials: Vec<Trial>,
+}
+
+// ------------------------------------------------------------------ strategies
+
+fn status_strategy() -> impl Strategy<Value = Status> {
+    prop_oneof![
+        17 => Just(Status::Ok),
+        1 => Just(Status::NotFound),
+        1 => Just(Status::Invalid),
+        1 => prop_oneof![Just(3), Just(1234), Just(-1), Just(i32::MAX), Just(257), any::<i32>()].prop_map(Status::Unknown),
+    ]
+}
+
+fn small_u8() -> impl Strategy<Value = u8> {
+    prop_oneof![4 => 0u8..4, 2 => 0u8..12, 1 => any::<u8>()]
+}
+
+fn src_strategy() -> impl Strategy<Value = Src> {
+    prop_oneof![
+        8 => small_u8().prop_map(Src::AtOffset),
+        3 => any::<u16>().prop_map(Src::Chain),
+        2 => small_u8().prop_map(Src::ForkSame),
+        2 => small_u8().prop_map(Src::ForkForeign),
+        2 => small_u8().prop_map(Src::OtherChain),
+        2 => (small_u8(), any::<u16>(), 0u8..8).prop_map(|(k, pos, bit)| Src::ByteFlip { k, pos, bit }),
+        1 => (any::<u64>(), prop_oneof![0u16..8, 0u16..2000]).prop_map(|(seed, len)| Src::Garbage { seed, len }),
+        1 => Just(Src::EmptyBody),
+    ]
+}
+
+fn entry_strategy() -> impl Strategy<Value = EntrySpec> {
+    (src_strategy(), prop_oneof![3 => Just(None), 1 => damage_strategy().prop_map(Some)], status_strategy())
+        .prop_map(|(src, damage, status)| EntrySpec { src, damage, status })
+}
+
+fn edit_strategy() -> impl Strategy<Value = Edit> {
+    prop_oneof![
+        4 => (any::<u16>(), entry_strategy()).prop_map(|(pos, e)| Edit::Replace { pos, e }),
+        3 => (any::<u16>(), entry_strategy()).prop_map(|(pos, e)| Edit::Insert { pos, e }),
+        3 => any::<u16>().prop_map(|pos| Edit::Remove { pos }),
+        2 => (any::<u16>(), any::<u16>()).prop_map(|(a, b)| Edit::Swap { a, b }),
+        3 => any::<u16>().prop_map(|pos| Edit::Dup { pos }),
+        2 => (any::<u16>(), status_strategy()).prop_map(|(pos, status)| Edit::SetStatus { pos, status }),
+        4 => (any::<u16>(), damage_strategy()).prop_map(|(pos, d)| Edit::Damage { pos, d }),
+        1 => Just(Edit::Reverse),
+        2 => any::<u64>().prop_map(Edit::Shuffle),
+        1 => any::<u16>().prop_map(|len| Edit::Truncate { len }),
+    ]
+}
+
+fn amount_strategy(max_amount: u8) -> impl Strategy<Value = u8> {
+    prop_oneof![3 => Just(1u8), 4 => 2u8..=6, 2 => 7u8..=24, 1 => 25u8..=max_amount]
+}
+
+fn req_strategy(max_amount: u8) -> impl Strategy<Value = ReqSpec> {
+    let start = prop_oneof![
+        8 => any::<u16>().prop_map(StartSel::InChain),
+        1 => (0u8..4).prop_map(StartSel::Below),
+        1 => (0u8..4).prop_map(StartSel::Above),
+        1 => Just(StartSel::One),
+        4 => prop_oneof![3 => 0u8..6, 1 => 0u8..80].prop_map(StartSel::NearU64Max),
+        2 => (-6i8..=6).prop_map(StartSel::NearI64Max),
+    ];
+    let hash = prop_oneof![
+        5 => any::<u16>().prop_map(HashSel::Chain),
+        1 => any::<u16>().prop_map(HashSel::ForkSame),
+        1 => any::<u16>().prop_map(HashSel::ForkForeign),
+        1 => any::<u64>().prop_map(HashSel::Random),
+    ];
+    prop_oneof![
+        7 => (start, amount_strategy(max_amount)).prop_map(|(start, amount)| ReqSpec::Height { start, amount }),
+        2 => hash.prop_map(ReqSpec::Hash),
+        1 => Just(ReqSpec::Head),
+    ]
+}
+
+fn trial_strategy(max_amount: u8) -> impl Strategy<Value = Trial> {
+    let runlen = prop_oneof![
+        8 => Just(RunLen::Full),
+        3 => (1u8..4).prop_map(RunLen::FullMinus),
+        2 => Just(RunLen::Amount),
+        2 => (1u8..3).prop_map(RunLen::AmountPlus),
+        1 => Just(RunLen::Zero),
+    ];
+    let base = prop_oneof![
+        6 => runlen.prop_map(Base::Run),
+        1 => prop::collection::vec(entry_strategy(), 0..6).prop_map(Base::Entries),
+    ];
+    (req_strategy(max_amount), base, prop_oneof![2 => Just(vec![]), 5 => prop::collection::vec(edit_strategy(), 1..=3)])
+        .prop_map(|(req, base, edits)| Trial { req, base, edits })
+}
+
+fn case_strategy(short_max: usize, long_max: usize, max_amount: u8, trials: usize) -> impl Strategy<Value = Case> {
+    let chain = prop_oneof![
+        6 => chain_strategy(2..=short_max, 4, false, true),
+        1 => (any::<u64>(), (long_max - 16)..=long_max)
+            .prop_map(|(seed, len)| simple_chain_spec(seed, 1, len, TimeBase::Fixed(1_650_000_000 + seed % 1_000_000), 12_000)),
+    ];
+    let start = prop_oneof![
+        3 => Just(ChainStart::One),
+        3 => (2u16..2000).prop_map(ChainStart::Small),
+        2 => ((1u64 << 32)..(1u64 << 62)).prop_map(ChainStart::Mid),
+        2 => Just(ChainStart::TopI64),
+    ];
+    (chain, start, prop::collection::vec(trial_strategy(max_amount), trials..=trials + 4)).prop_map(|(chain, start, trials)| Case { chain, start, trials })
+}
+
+// ------------------------------------------------------------------ universe
+
+struct Universe {
+    chain: Chain,
+    fork_same: OnceCell<Vec<ExtendedHeader>>,
+    fork_foreign: OnceCell<Vec<ExtendedHeader>>,
+    other: OnceCell<Vec<ExtendedHeader>>,
+}
+
+impl Universe {
+    fn new(case: &Case) -> Universe {
+        let mut spec = case.chain.clone();
+        let l = spec.blocks.len() as u64;
+        spec.start_height = match case.start {
+            ChainStart::One => 1,
+            ChainStart::Small(s) => s as u64,
+            ChainStart::Mid(m) => m,
+            ChainStart::TopI64 => I64MAX - (l - 1),
+        };
+        Universe {
+            chain: build_chain(&spec),
+            fork_same: OnceCell::new(),
+            fork_foreign: OnceCell::new(),
+            other: OnceCell::new(),
+        }
+    }
+    fn len(&self) -> usize {
+        self.chain.headers.len()
+    }
+    fn first(&self) -> u64 {
+        self.chain.headers[0].height()
+    }
+    fn fork_same(&self) -> &Vec<ExtendedHeader> {
+        self.fork_same.get_or_init(|| build_fork(&self.chain, 0, self.len(), 7, false))
+    }
+    fn fork_foreign(&self) -> &Vec<ExtendedHeader> {
+        self.fork_foreign.get_or_init(|| build_fork(&self.chain, 0, self.len(), 9, true))
+    }
+    fn other(&self) -> &Vec<ExtendedHeader> {
+        self.other.get_or_init(|| {
+            let mut spec = self.chain.spec.clone();
+            spec.seed ^= 0x0123_4567_89ab_cdef;
+            spec.chain_id = format!("{}x", spec.chain_id);
+            build_chain(&spec).headers
+        })
+    }
+    fn idx_of_height(&self, h: u64) -> Option<usize> {
+        let f = self.first();
+        (h >= f && h - f < self.len() as u64).then(|| (h - f) as usize)
+    }
+}
+
+/// What the answer positions of a request refer to.
+enum Target {
+    /// height request starting at `start`
+    Height { start: u64, amount: u64 },
+    /// hash request; the index of the requested header in (0 = chain, 1 = fork_same, 2 = fork_foreign) or none
+    Hash { hash: Vec<u8>, at: Option<(u8, usize)> },
+    Head,
+}
+
+struct Ent {
+    resp: HeaderResponse,
+    /// status OK and an undamaged honest/fork/other header: certainly valid, with its height
+    plain_valid_height: Option<u64>,
+    /// damaged by one of the invalid-by-construction operators (whatever the status)
+    certainly_invalid: bool,
+    /// unknown validity (byte flip)
+    uncertain: bool,
+    label: &'static str,
+}
+
+fn status_code(s: &Status) -> i32 {
+    match s {
+        Status::Ok => STATUS_OK,
+        Status::NotFound => STATUS_NOT_FOUND,
+        Status::Invalid => STATUS_INVALID,
+        Status::Unknown(c) => *c,
+    }
+}
+
+fn resolve_entry(u: &Universe, t: &Target, e: &EntrySpec) -> Ent {
+    let l = u.len();
+    // index into the universe for "answer position k"
+    let pos_idx = |k: u8| -> usize {
+        match t {
+            Target::Height { start, .. } => match start.checked_add(k as u64).and_then(|h| u.idx_of_height(h)) {
+                Some(i) => i,
+                None => k as usize % l,
+            },
+            Target::Hash { at, .. } => (at.map(|(_, i)| i).unwrap_or(0) + k as usize) % l,
+            Target::Head => (l - 1 + l - (k as usize % l)) % l,
+        }
+    };
+    let (header, mut label): (Option<ExtendedHeader>, &'static str) = match &e.src {
+        Src::AtOffset(k) => {
+            let i = pos_idx(*k);
+            match t {
+                Target::Hash { at: Some((1, j)), .. } if *k == 0 => (Some(u.fork_same()[*j].clone()), "entry-right-position"),
+                Target::Hash { at: Some((2, j)), .. } if *k == 0 => (Some(u.fork_foreign()[*j].clone()), "entry-right-position"),
+                _ => (Some(u.chain.headers[i].clone()), "entry-right-position"),
+            }
+        }
+        Src::Chain(sel) => (Some(u.chain.headers[pick(*sel, l)].clone()), "entry-other-chain-header"),
+        Src::ForkSame(k) => (Some(u.fork_same()[pos_idx(*k)].clone()), "entry-fork-same-validators"),
+        Src::ForkForeign(k) => (Some(u.fork_foreign()[pos_idx(*k)].clone()), "entry-fork-foreign-validators"),
+        Src::OtherChain(k) => (Some(u.other()[pos_idx(*k)].clone()), "entry-foreign-chain"),
+        Src::ByteFlip { k, .. } => (Some(u.chain.headers[pos_idx(*k)].clone()), "entry-byte-flipped"),
+        Src::Garbage { .. } => (None, "entry-garbage-body"),
+        Src::EmptyBody => (None, "entry-empty-body"),
+    };
+    let mut certainly_invalid = false;
+    let mut uncertain = false;
+    let body = match (&e.src, &header) {
+        (Src::Garbage { seed, len }, _) => Prng::new(*seed).bytes(*len as usize),
+        (Src::EmptyBody, _) => vec![],
+        (Src::ByteFlip { pos, bit, .. }, Some(h)) => {
+            let mut b = match e.damage {
+                Some(d) => damaged_body(h, d),
+                None => encode_header(h),
+            };
+            let p = pick(*pos, b.len());
+            b[p] ^= 1 << bit;
+            uncertain = true; // the flip could (in principle) undo a damage: claim nothing about validity
+            b
+        }
+        (_, Some(h)) => match e.damage {
+            Some(d) => {
+                certainly_invalid = true;
+                label = d.label();
+                damaged_body(h, d)
+            }
+            None => encode_header(h),
+        },
+        (_, None) => vec![],
+    };
+    let code = status_code(&e.status);
+    let plain_valid_height = match (&header, code == STATUS_OK, e.damage.is_none() && !uncertain) {
+        (Some(h), true, true) => Some(h.height()),
+        _ => None,
+    };
+    if code != STATUS_OK {
+        label = match e.status {
+            Status::NotFound => "entry-status-not-found",
+            Status::Invalid => "entry-status-invalid",
+            _ => "entry-status-unknown",
+        };
+    }
+    Ent {
+        resp: HeaderResponse { body, status_code: code },
+        plain_valid_height,
+        certainly_invalid,
+        uncertain,
+        label,
+    }
+}
+
+fn apply_damage(u: &Universe, ent: &mut Ent, d: Damage) {
+    // re-damage an existing entry: only meaningful when its body is a decodable header
+    if let Some(raw) = raw_decode(&ent.resp.body) {
+        if let Ok(h) = ExtendedHeader::try_from(raw) {
+            ent.resp.body = damaged_body(&h, d);
+            ent.certainly_invalid = true;
+            ent.plain_valid_height = None;
+            ent.label = d.label();
+            return;
+        }
+    }
+    let _ = u;
+}
+
+fn build_list(u: &Universe, t: &Target, trial: &Trial) -> Vec<Ent> {
+    let l = u.len();
+    let mut list: Vec<Ent> = match &trial.base {
+        Base::Run(rl) => {
+            let (amount, avail) = match t {
+                Target::Height { start, amount } => {
+                    // a start outside the chain has no honest answer: offer headers anyway (wrong heights)
+                    let avail = u.idx_of_height(*start).map(|i| (l - i) as u64).unwrap_or(l as u64);
+                    (*amount, avail)
+                }
+                Target::Hash { at, .. } => (1, at.is_some() as u64),
+                Target::Head => (1, 1),
+            };
+            let full = amount.min(avail);
+            let n = match rl {
+                RunLen::Full => full,
+                RunLen::FullMinus(k) => full.saturating_sub(*k as u64),
+                RunLen::Amount => amount,
+                RunLen::AmountPlus(k) => amount + *k as u64,
+                RunLen::Zero => 0,
+            };
+            (0..n.min(90))
+                .map(|k| {
+                    resolve_entry(
+                        u,
+                        t,
+                        &EntrySpec {
+                            src: Src::AtOffset(k as u8),
+                            damage: None,
+                            status: Status::Ok,
+                        },
+                    )
+                })
+                .collect()
+        }
+        Base::Entries(es) => es.iter().map(|e| resolve_entry(u, t, e)).collect(),
+    };
+    for ed in &trial.edits {
+        let n = list.len();
+        match ed {
+            Edit::Replace { pos, e } if n > 0 => {
+                let p = pick(*pos, n);
+                list[p] = resolve_entry(u, t, e);
+            }
+            Edit::Insert { pos, e } => {
+                let p = pick(*pos, n + 1);
+                list.insert(p, resolve_entry(u, t, e));
+            }
+            Edit::Remove { pos } if n > 0 => {
+                list.remove(pick(*pos, n));
+            }
+            Edit::Swap { a, b } if n > 1 => {
+                let (a, b) = (pick(*a, n), pick(*b, n));
+                list.swap(a, b);
+            }
+            Edit::Dup { pos } if n > 0 => {
+                let p = pick(*pos, n);
+                let e = &list[p];
+                let d = Ent {
+                    resp: e.resp.clone(),
+                    plain_valid_height: e.plain_valid_height,
+                    certainly_invalid: e.certainly_invalid,
+                    uncertain: e.uncertain,
+                    label: e.label,
+                };
+                list.insert(p + 1, d);
+            }
+            Edit::SetStatus { pos, status } if n > 0 => {
+                let p = pick(*pos, n);
+                list[p].resp.status_code = status_code(status);
+                if list[p].resp.status_code != STATUS_OK {
+                    list[p].plain_valid_height = None;
+                    list[p].label = "entry-status-changed";
+                } else if list[p].plain_valid_height.is_none() {
+                    // a body that was hidden behind a non-OK status is now visible: classify nothing
+                    list[p].uncertain = true;
+                }
+            }
+            Edit::Damage { pos, d } if n > 0 => {
+                let p = pick(*pos, n);
+                apply_damage(u, &mut list[p], *d);
+            }
+            Edit::Reverse => list.reverse(),
+            Edit::Shuffle(seed) => {
+                let mut r = Prng::new(*seed);
+                for i in (1..list.len()).rev() {
+                    let j = r.below(i as u64 + 1) as usize;
+                    list.swap(i, j);
+                }
+            }
+            Edit::Truncate { len } => {
+                let k = pick(*len, n + 1);
+                list.truncate(k);
+            }
+            _ => {}
+        }
+    }
+    list
+}
+
+fn resolve_target(u: &Universe, req: &ReqSpec) -> (ReqData, u64, Target) {
+    let l = u.len();
+    match req {
+        ReqSpec::Height { start, amount } => {
+            let f = u.first();
+            let s = match start {
+                StartSel::InChain(sel) => f + pick(*sel, l) as u64,
+                StartSel::Below(k) => f.saturating_sub(*k as u64 + 1).max(1),
+                StartSel::Above(k) => f.saturating_add(l as u64 + *k as u64),
+                StartSel::One => 1,
+                StartSel::NearU64Max(k) => u64::MAX - *k as u64,
+                StartSel::NearI64Max(k) => I64MAX.wrapping_add_signed(*k as i64),
+            };
+            let amount = (*amount).max(1) as u64;
+            (ReqData::Origin(s), amount, Target::Height { start: s, amount })
+        }
+        ReqSpec::Hash(sel) => {
+            let (hash, at) = match sel {
+                HashSel::Chain(s) => {
+                    let i = pick(*s, l);
+                    (u.chain.headers[i].hash().as_bytes().to_vec(), Some((0u8, i)))
+                }
+                HashSel::ForkSame(s) => {
+                    let i = pick(*s, l);
+                    (u.fork_same()[i].hash().as_bytes().to_vec(), Some((1u8, i)))
+                }
+                HashSel::ForkForeign(s) => {
+                    let i = pick(*s, l);
+                    (u.fork_foreign()[i].hash().as_bytes().to_vec(), Some((2u8, i)))
+                }
+                HashSel::Random(seed) => (Prng::new(*seed).bytes(32), None),
+            };
+            (ReqData::Hash(hash.clone()), 1, Target::Hash { hash, at })
+        }
+        ReqSpec::Head => (ReqData::Origin(0), 1, Target::Head),
+    }
+}
+
+/// Classification of the offered list from the construction (labels only, never asserted).
+fn classify(t: &Target, list: &[Ent]) -> &'static str {
+    if list.is_empty() {
+        return "class-empty";
+    }
+    let amount = match t {
+        Target::Height { amount, .. } => *amount,
+        _ => 1,
+    };
+    if list.len() as u64 > amount {
+        return "class-oversize";
+    }
+    let mut prefix: Vec<u64> = Vec::new();
+    for e in list {
+        if e.uncertain {
+            return "class-uncertain";
+        }
+        match e.plain_valid_height {
+            Some(h) => prefix.push(h),
+            None => break,
+        }
+    }
+    if prefix.is_empty() {
+        return "class-first-entry-bad";
+    }
+    let partial = prefix.len() < list.len();
+    let in_order = prefix.windows(2).all(|w| w[0] < w[1]);
+    let mut sorted = prefix.clone();
+    sorted.sort_unstable();
+    match t {
+        Target::Height { start, .. } => {
+            let exact = sorted.iter().enumerate().all(|(i, h)| start.checked_add(i as u64) == Some(*h));
+            if exact {
+                match (partial, in_order) {
+                    (false, true) => "class-exact-run",
+                    (false, false) => "class-shuffled-run",
+                    (true, _) => "class-valid-prefix-then-bad",
+                }
+            } else if sorted.windows(2).any(|w| w[0] == w[1]) {
+                "class-duplicate-heights"
+            } else if sorted[0] != *start {
+                "class-wrong-start"
+            } else {
+                "class-gap"
+            }
+        }
+        Target::Hash { .. } => "class-hash-single",
+        Target::Head => "class-head-single",
+    }
+}
+
+fn run_trial(u: &Universe, trial: &Trial, obs: &mut Obs) -> Result<(), Failure> {
+    let (data, amount, target) = resolve_target(u, &trial.req);
+    let request: HeaderRequest = make_request(&data, amount);
+    // caller precondition, through the real predicate; the generator must only produce valid requests
+    if !hx::header_request_is_valid(&request) || !ref_request_is_valid(&data, amount) {
+        return Err(Failure::new("gen", format!("generator produced a request the client would never send: {request:?}")));
+    }
+    let list = build_list(u, &target, trial);
+    let responses: Vec<HeaderResponse> = list.iter().map(|e| e.resp.clone()).collect();
+    let class = classify(&target, &list);
+
+    // digest / non-trivial rule
+    let mut dg = digest_of(&request);
+    for r in &responses {
+        dg = dg.rotate_left(7) ^ digest_bytes(&r.body) ^ (r.status_code as u64).wrapping_mul(0x9E37_79B9);
+    }
+    let boundary = matches!(target, Target::Height { start, .. } if start > u64::MAX - 80 || (start > I64MAX - 80 && start < I64MAX + 80));
+    let nontrivial = class != "class-exact-run" || boundary;
+    obs.eval(nontrivial.then_some(dg));
+    obs.label(match target {
+        Target::Height { .. } => "req-height",
+        Target::Hash { .. } => "req-hash",
+        Target::Head => "req-head",
+    });
+    if let Target::Height { start, .. } = target {
+        if start > u64::MAX - 80 {
+            obs.label("start-near-u64-max");
+        } else if start > I64MAX - 80 && start < I64MAX + 80 {
+            obs.label("start-near-i64-max");
+        }
+    }
+    for e in &list {
+        obs.label(e.label);
+    }
+    obs.label(class);
+
+    // a fresh runtime per call: a panic inside `block_on` leaves a current-thread runtime unusable
+    let result = no_panic(|| {
+        let rt = tokio::runtime::Builder::new_current_thread().build().unwrap();
+        rt.block_on(hx::decode_and_verify_responses(&request, &responses))
+    });
+    let describe = || {
+        let offered: Vec<String> = list
+            .iter()
+            .map(|e| match e.plain_valid_height {
+                Some(h) => format!("valid@{h}"),
+                None => format!("{}(status {})", e.label, e.resp.status_code),
+            })
+            .collect();
+        format!("request {request:?}; offered [{}]", offered.join(", "))
+    };
+    let hs = match result {
+        Err(rec) => {
+            obs.label("outcome-panic");
+            return obs.fail(&panic_signature("C28", &rec), format!("decode_and_verify_responses panicked ({rec}) instead of returning an error; {}", describe()));
+        }
+        Ok(Err(_)) => {
+            obs.label("outcome-err");
+            obs.label(&format!("err/{class}"));
+            if matches!(class, "class-exact-run" | "class-shuffled-run" | "class-valid-prefix-then-bad" | "class-hash-single" | "class-head-single") {
+                // not required by the property sentence (soundness only): hash/head singles with the wrong header land here legitimately
+                if class.starts_with("class-exact") {
+                    obs.note(format!("observation (not asserted): exact honest run rejected; {}", describe()));
+                }
+            }
+            return Ok(());
+        }
+        Ok(Ok(hs)) => hs,
+    };
+    obs.label("outcome-ok");
+    obs.label(&format!("ok/{class}"));
+
+    // ---- oracle on the accepted value
+    let offered_ok_typed: Vec<ExtendedHeader> = list
+        .iter()
+        .filter(|e| e.resp.status_code == STATUS_OK)
+        .filter_map(|e| raw_decode(&e.resp.body).and_then(|r| ExtendedHeader::try_from(r).ok()))
+        .collect();
+    let offered_nonok_raw: Vec<RawExtendedHeader> = list.iter().filter(|e| e.resp.status_code != STATUS_OK).filter_map(|e| raw_decode(&e.resp.body)).collect();
+    let invalid_raw: Vec<RawExtendedHeader> = list.iter().filter(|e| e.certainly_invalid).filter_map(|e| raw_decode(&e.resp.body)).collect();
+    for h in &hs {
+        let raw = raw_of(h);
+        if invalid_raw.iter().any(|r| *r == raw) {
+            obs.fail(
+                "C28:accepted-invalid-header",
+                format!("accepted header at height {} is one of the offered invalid-by-construction bodies; {}", h.height(), describe()),
+            )?;
+        }
+        if let Err(e) = h.validate() {
+            obs.fail("C28:accepted-unvalidated-header", format!("accepted header at height {} fails validate(): {e}; {}", h.height(), describe()))?;
+        }
+        if !offered_ok_typed.iter().any(|o| o == h) {
+            if offered_nonok_raw.iter().any(|r| *r == raw) {
+                obs.fail(
+                    "C28:accepted-header-from-non-ok-entry",
+                    format!("accepted header at height {} was only offered in an entry whose status code is not OK; {}", h.height(), describe()),
+                )?;
+            } else {
+                obs.fail("C28:accepted-header-not-offered", format!("accepted header at height {} is none of the offered bodies; {}", h.height(), describe()))?;
+            }
+        }
+    }
+    match &target {
+        Target::Height { start, amount } => {
+            if hs.is_empty() {
+                obs.fail("C28:accepted-empty", format!("Ok(empty) for a height request; {}", describe()))?;
+            }
+            if hs.len() as u64 > *amount {
+                obs.fail("C28:accepted-more-than-amount", format!("accepted {} headers for amount {amount}; {}", hs.len(), describe()))?;
+            }
+            let got: Vec<u64> = hs.iter().map(|h| h.height()).collect();
+            let exact = got.iter().enumerate().all(|(i, h)| start.checked_add(i as u64) == Some(*h));
+            if !exact {
+                obs.fail(
+                    "C28:accepted-wrong-heights",
+                    format!("accepted heights {got:?} for a request starting at {start} (amount {amount}); {}", describe()),
+                )?;
+            }
+        }
+        Target::Hash { hash, .. } => {
+            if hs.len() != 1 {
+                obs.fail("C28:hash-accepted-not-single", format!("accepted {} headers for a hash request; {}", hs.len(), describe()))?;
+            } else if hs[0].hash().as_bytes() != &hash[..] {
+                obs.fail("C28:accepted-hash-mismatch", format!("accepted header with hash {} for a request of hash {}; {}", hs[0].hash(), hex::encode(hash), describe()))?;
+            }
+        }
+        Target::Head => {
+            if hs.len() != 1 {
+                obs.fail("C28:head-accepted-not-single", format!("accepted {} headers for a head request; {}", hs.len(), describe()))?;
+            }
+        }
+    }
+    Ok(())
+}
+
+pub fn run(ctx: &mut Ctx) {
+    ctx.assume("header bodies are produced with celestia-types' own protobuf encoder; validity of accepted headers is re-checked with ExtendedHeader::validate (C01 owns its correctness) and, independently, against bodies that are invalid by construction (all signatures broken, DAH removed/cleared/foreign, header field tampered, foreign validator set, forged height)");
+    ctx.assume("requests satisfy HeaderRequestExt::is_valid (caller precondition; checked through the hook for every generated request)");
+    ctx.assume("the client does not verify chain linkage (documented: done in get_verified_headers_range), so individually valid fork / foreign-chain headers at the right heights are legitimately accepted");
+    ctx.essential(&[
+        "req-height",
+        "req-hash",
+        "req-head",
+        "start-near-u64-max",
+        "start-near-i64-max",
+        "ok/class-exact-run",
+        "ok/class-shuffled-run",
+        "ok/class-valid-prefix-then-bad",
+        "ok/class-hash-single",
+        "ok/class-head-single",
+        "err/class-empty",
+        "err/class-oversize",
+        "err/class-first-entry-bad",
+        "err/class-gap",
+        "err/class-duplicate-heights",
+        "err/class-wrong-start",
+        "err/class-hash-single",
+        "invalid-all-signatures-broken",
+        "invalid-dah-cleared",
+        "invalid-height-forged",
+        "entry-status-unknown",
+        "entry-status-not-found",
+        "entry-fork-same-validators",
+        "entry-foreign-chain",
+        "entry-garbage-body",
+    ]);
+    ctx.set_shrink_iters(400);
+    let (cases, short_max, long_max, trials) = match ctx.tier {
+        Tier::Quick => (1600u32, 12usize, 76usize, 12usize),
+        Tier::Thorough => (40_000, 24, 90, 24),
+    };
+    let rule = "per generated universe (honest multi-validator chain with rotation starting at 1 / small / mid / ending at i64::MAX, same-validator fork, foreign-validator fork, foreign chain) 12..28 (request, response list) pairs: height requests with start in/below/above the chain, 1, u64::MAX-k, i64::MAX+-k and amount 1..70, hash requests (chain, fork, random), head requests; lists = honest run (full, short, exactly amount, oversize, empty) or free entries, then 0..3 edits (replace/insert/remove/swap/dup/status/damage/reverse/shuffle/truncate). One evaluation per pair. Non-trivial = the list is not the plain in-order honest run, or the start is within 80 of u64::MAX / i64::MAX (distinct by request + bodies + status codes)";
+    ctx.proptest(
+        "responses",
+        rule,
+        cases,
+        move || case_strategy(short_max, long_max, 70, trials),
+        |case, obs| {
+            let u = Universe::new(case);
+            for t in &case.trials {
+                run_trial(&u, t, obs)?;
+            }
+            Ok(())
+        },
+    );
 }
